@@ -335,7 +335,8 @@ def expected(spec, with_links=True):
                 order, base = split_key(at["key"])
                 res = model.residues[amap[str(order)]]
                 sel = dict(at["attrs"])
-                sel.setdefault("resname", lnk["resname"])
+                if lnk["resname"] is not None:
+                    sel.setdefault("resname", lnk["resname"])
                 sel["atomname"] = base
                 cands = [res["first"] + i for i in range(res["natoms"])
                          if sel_match(model.atoms[res["first"] + i - 1]["sel"], sel)]
@@ -353,7 +354,8 @@ def expected(spec, with_links=True):
                 src_atom = to_atom[src]
                 src_resid = model.atoms[src_atom - 1]["resid"]
                 sel = dict(attrs)
-                sel.setdefault("resname", lnk["resname"])
+                if lnk["resname"] is not None:
+                    sel.setdefault("resname", lnk["resname"])
                 sel["atomname"] = t_base
                 for idx, atom in enumerate(model.atoms, start=1):
                     if atom["resid"] != src_resid + t_order or idx == src_atom:
